@@ -391,7 +391,7 @@ func runHTTPOnce(c *vlib.Cases, hc httpCfg, mu *sync.Mutex, last bool) bool {
 			b.Close()
 		}
 	}()
-	s, err := stack.Start(stack.Opts{Engine: hc.Engine, Balancer: "priority", EPs: eps, ModelDiscovery: true, Mutate: func(cfg *config.Config) {
+	s, err := stack.Start(stack.Opts{Vary: stack.VaryFor("c09.http", hc), Engine: hc.Engine, Balancer: "priority", EPs: eps, ModelDiscovery: true, Mutate: func(cfg *config.Config) {
 		cfg.ModelRegistry.RoutingStrategy.Type = hc.Typ
 		cfg.ModelRegistry.RoutingStrategy.Options.FallbackBehavior = hc.Fb
 		cfg.ModelRegistry.RoutingStrategy.Options.DiscoveryRefreshOnMiss = hc.Rom
